@@ -534,7 +534,7 @@ fn run_adv(case: &AdvCase, want_trace: bool) -> AdvResult {
             let mut probe_pids = vec![];
             let mut probes = vec![];
             for i in 0..2usize {
-                let (p, _) = Actor::spawn(None, Probe { idx: i, got: got2.clone() }, ()).await.expect("probe");
+                let (p, _) = Actor::spawn(None, Probe { idx: i, got: got2.clone(), pre_join: None }, ()).await.expect("probe");
                 ractor::pg::join("c17".to_string(), vec![p.get_cell()]);
                 probe_pids.push(p.get_id().pid());
                 probes.push(p);
@@ -699,7 +699,7 @@ fn run_adv(case: &AdvCase, want_trace: bool) -> AdvResult {
                         if spawned_extra < 2 {
                             let idx = 2 + spawned_extra;
                             spawned_extra += 1;
-                            let (p, _) = Actor::spawn(None, Probe { idx, got: got2.clone() }, ()).await.expect("probe");
+                            let (p, _) = Actor::spawn(None, Probe { idx, got: got2.clone(), pre_join: None }, ()).await.expect("probe");
                             probe_pids.push(p.get_id().pid());
                             probes.push(p);
                         }
